@@ -147,7 +147,10 @@ pub fn run_bytes(opts: &Opts, table: &Table, data: &[u8]) -> Result<(), RunErr> 
     let args = Arc::new(opts.args(&src));
     let planes = Planes { aircrafts: table.clone() };
     let h = squitterator::spawn_reader_thread(args, planes);
-    let r = match h.join() {
+    watch_begin(opts, &path);
+    let joined = h.join();
+    watch_end();
+    let r = match joined {
         Ok(Ok(())) => Ok(()),
         Ok(Err(e)) => Err(RunErr::Io(e.to_string())),
         Err(_) => Err(RunErr::Panic(take_last_panic().unwrap_or_else(|| "panic".into()))),
@@ -156,6 +159,133 @@ pub fn run_bytes(opts: &Opts, table: &Table, data: &[u8]) -> Result<(), RunErr> 
         table.clear_poison();
     }
     r
+}
+
+// --------------------------------------------------------------------------------------------
+// termination watchdog
+//
+// A reader run on a finite file normally ends within milliseconds. The watchdog thread looks at the run the main
+// thread is currently joined on and declares it wedged only on evidence that does not depend on machine load:
+//   deadlock  - the run is older than 30 s, the process burnt < 0.2 s of CPU over the last 20 s and every other
+//               thread sleeps (state S: blocked on a lock; a thread starved of CPU would be runnable, state R);
+//   livelock  - the run alone has burnt more than 600 s of CPU.
+// Anything else keeps waiting (the driver's budget then ends the worker as inconclusive).
+
+struct Watched {
+    since: std::time::Instant,
+    cpu0: f64,
+    opts: Opts,
+    input: PathBuf,
+}
+static WATCHED: Mutex<Option<Watched>> = Mutex::new(None);
+type HangFn = Box<dyn Fn(&Opts, &[u8], &str) + Send + Sync>;
+static ON_HANG: Mutex<Option<HangFn>> = Mutex::new(None);
+
+static SAVED_STDOUT: std::sync::atomic::AtomicI32 = std::sync::atomic::AtomicI32::new(-1);
+/// the replay command parks the real stdout here while the code under test runs, so that the watchdog can still report
+pub fn set_saved_stdout(fd: i32) {
+    SAVED_STDOUT.store(fd, std::sync::atomic::Ordering::SeqCst);
+}
+pub fn saved_stdout() -> Option<i32> {
+    let fd = SAVED_STDOUT.load(std::sync::atomic::Ordering::SeqCst);
+    (fd >= 0).then_some(fd)
+}
+
+fn process_cpu_s() -> f64 {
+    let mut ts = libc::timespec { tv_sec: 0, tv_nsec: 0 };
+    unsafe { libc::clock_gettime(libc::CLOCK_PROCESS_CPUTIME_ID, &mut ts) };
+    ts.tv_sec as f64 + ts.tv_nsec as f64 * 1e-9
+}
+
+fn watch_begin(opts: &Opts, input: &std::path::Path) {
+    if let Ok(mut g) = WATCHED.lock() {
+        *g = Some(Watched { since: std::time::Instant::now(), cpu0: process_cpu_s(), opts: opts.clone(), input: input.to_path_buf() });
+    }
+}
+fn watch_end() {
+    if let Ok(mut g) = WATCHED.lock() {
+        *g = None;
+    }
+}
+
+/// states of all threads of this process except the calling one
+fn other_thread_states() -> Vec<char> {
+    let me = unsafe { libc::syscall(libc::SYS_gettid) } as i64;
+    let mut v = Vec::new();
+    if let Ok(rd) = std::fs::read_dir("/proc/self/task") {
+        for e in rd.filter_map(|e| e.ok()) {
+            if e.file_name().to_string_lossy().parse::<i64>().ok() == Some(me) {
+                continue;
+            }
+            if let Ok(s) = std::fs::read_to_string(e.path().join("stat")) {
+                if let Some(i) = s.rfind(')') {
+                    if let Some(ch) = s[i + 1..].trim_start().chars().next() {
+                        v.push(ch);
+                    }
+                }
+            }
+        }
+    }
+    v
+}
+
+/// Starts the watchdog thread; `on_hang(opts, input bytes, verdict)` is called once, from the watchdog thread,
+/// and is expected to end the process.
+pub fn install_watchdog(on_hang: HangFn) {
+    if let Ok(mut g) = ON_HANG.lock() {
+        if g.is_some() {
+            return;
+        }
+        *g = Some(on_hang);
+    }
+    std::thread::spawn(|| {
+        let mut cpu_hist: std::collections::VecDeque<f64> = std::collections::VecDeque::new();
+        let mut quiet_ticks = 0;
+        loop {
+            std::thread::sleep(std::time::Duration::from_secs(1));
+            let now_cpu = process_cpu_s();
+            cpu_hist.push_back(now_cpu);
+            if cpu_hist.len() > 21 {
+                cpu_hist.pop_front();
+            }
+            let verdict = {
+                let Ok(g) = WATCHED.lock() else { continue };
+                match g.as_ref() {
+                    None => {
+                        quiet_ticks = 0;
+                        None
+                    }
+                    Some(w) => {
+                        let age = w.since.elapsed().as_secs_f64();
+                        let burnt = now_cpu - w.cpu0;
+                        let idle = cpu_hist.len() == 21 && now_cpu - cpu_hist[0] < 0.2;
+                        let states = other_thread_states();
+                        if age > 30.0 && idle && !states.is_empty() && states.iter().all(|s| *s == 'S') {
+                            quiet_ticks += 1;
+                        } else {
+                            quiet_ticks = 0;
+                        }
+                        if quiet_ticks >= 5 {
+                            Some((format!("deadlock: no progress for {:.0} s, all threads blocked, {:.2} s of CPU used by the run", age, burnt), w.opts.clone(), w.input.clone()))
+                        } else if burnt > 600.0 {
+                            Some((format!("livelock: {:.0} s of CPU burnt on one finite input without finishing", burnt), w.opts.clone(), w.input.clone()))
+                        } else {
+                            None
+                        }
+                    }
+                }
+            };
+            if let Some((v, opts, input)) = verdict {
+                let data = std::fs::read(&input).unwrap_or_default();
+                if let Ok(g) = ON_HANG.lock() {
+                    if let Some(f) = g.as_ref() {
+                        f(&opts, &data, &v);
+                    }
+                }
+                std::process::exit(3);
+            }
+        }
+    });
 }
 
 pub fn run_lines<S: AsRef<str>>(opts: &Opts, table: &Table, lines: &[S]) -> Result<(), RunErr> {
